@@ -325,6 +325,9 @@ pub fn conversion_cfgs(tier: &str) -> Vec<Cfg> {
         base.with_acronyms("HO"),
         base.with_acronyms("IN"),
         Cfg { mods: crate::settings::HR, clock_rate: Some(1.5), ..Default::default() },
+        // lazer Random with a seed: a mania-mode set and a taiko-mode set (see settings::Cfg::game_mods)
+        Cfg { random_seed: Some(42), ..Default::default() },
+        Cfg { random_seed: Some(1337), da_scroll: Some(1.0), ..Default::default() },
     ];
     if tier == "thorough" {
         for a in ["1K", "2K", "3K", "5K", "6K", "8K", "9K", "10K", "MR", "IN,HO", "DS"] {
